@@ -1,10 +1,10 @@
 //! Bounded stand-in / failing-input search for unit U7 (pattern parser) — NOT a proof.
-//! Bound: every token sequence of length <= 5 over an 11-token alphabet, for one language
 //! host: src/parse.rs
 //! functions: Pattern::parse RecExpr::parse is_term parse_nested_syntax_elem parse_pattern parse_pattern_nosubst pattern_to_re
-//! (var/app/lam/number payload); plus every prefix of 14 valid, malformed and non-ASCII texts through
-//! Pattern::parse / RecExpr::parse (this also stands in for tokenize / crop_ident / ident_char when an edit moves
-//! them outside Verus's subset).
+//! Bound: every token sequence of length <= 5 over an 11-token alphabet, for one language (var/app/lam/number payload);
+//! every prefix (at character boundaries) of 14 valid, malformed and non-ASCII texts through Pattern::parse / RecExpr::parse
+//! (this also stands in for tokenize / crop_ident / ident_char when an edit moves them outside Verus's subset); print -> parse
+//! round trip of 9 patterns with chained and nested substitutions.
 use crate::*;
 use super::*;
 
